@@ -1396,6 +1396,7 @@ func (e *Engine) rangeNext(fr *Frame, st *State, x *ssa.Next) Val {
 	// visited set is exactly the map's domain at the exit, that number is the map's length
 	nv := st.cells[it.ncell].T
 	st.assume(Ge(nv, IntLit(0)))
+	st.assume(Le(nv, IntLit(1<<62))) // a Go map never holds that many keys (len is an int)
 	q2 := BoundVar("qc", ks)
 	st.assume(Implies(And(Not(ok), Ne(it.m, IntLit(0)), Forall([]*Term{q2}, Implies(Select(visited, q2), Select(dom, q2)), Select(visited, q2))),
 		Eq(nv, e.mapCard(st, mt, it.m))))
